@@ -11,7 +11,12 @@ Model/DFACache.lean — the mutable part of a `DFA` instance (property C20):
   * live generator objects: `words_of_length(k)` populates the word cache at its first
     `next()` and then walks the list object it found there; `iter(dfa)` calls `isempty`,
     `minimum_word_length`, `maximum_word_length` at its first `next()` and opens
-    `words_of_length(i)` level by level, each time populating the cache *of the moment*.
+    `words_of_length(i)` level by level, each time populating the cache *of the moment*;
+    `successors(…)` / `predecessors(…)` call the cached `isfinite()` (reverse only) and
+    `_get_digraph()` at their first `next()`, build their private configuration and from
+    then on run the loop of Model/DFASucc.lean on their own local variables, one yield per
+    `next()`;
+  * `minify()` on a partial DFA and `to_partial()` read `_get_digraph()` through the memo.
 
 Every public query is a transition `step : Inst → Query → Inst × Ans`.  `stepPure` is the
 stateless reference: it keeps nothing but the generators' own positions and answers every
@@ -35,23 +40,27 @@ structure Memo (σ : Type) where
   deriving Repr
 
 /-- A live generator object. -/
-inductive Gen (α : Type)
+inductive Gen (σ α : Type)
   | wordsNew (k : Nat)                      -- `words_of_length(k)` created, not started
   | wordsRun (rest : List (List α))         -- walking `_word_cache[k][initial_state]`
   | iterNew                                 -- `iter(dfa)` created, not started
   | iterRun (i : Nat) (limit : Option Nat) (rest : List (List α))
       -- inside `while`: `rest` is what the current `yield from words_of_length(i-1)` still has
       -- to deliver, `i` is the level the loop opens next
+  | succNew (key : α → Int) (input : Option (List α)) (o : SuccOpts)
+      -- `successors(input, key=…, …)` created, not started (nothing of its body has run)
+  | succRun (o : SuccOpts) (c : SuccCfg σ α) (st : SuccState σ α)
+      -- suspended at a `yield` inside the loop: the generator's own local variables
+  | raising (e : Exn)
+      -- suspended at a `yield` after which the rest of the loop body raises `e`
   | done                                    -- exhausted or ended by an exception
-  deriving Repr, DecidableEq
 
 /-- The mutable state of one `DFA` object plus the generators created from it. -/
 structure Inst (σ α : Type) where
   counts : List (List (σ × Nat)) := []
   words : List (List (σ × List (List α))) := []
   memo : Memo σ := {}
-  gens : List (Gen α) := []
-  deriving Repr
+  gens : List (Gen σ α) := []
 
 /-- A freshly constructed object (`__init__` ends with `clear_cache()`). -/
 def Inst.fresh : Inst σ α := {}
@@ -205,10 +214,24 @@ inductive Query (α : Type)
       -- `list(islice(successors(input, …), n))`  (`n = 0`: generator created, never started)
   | first (key : α → Int) (input : Option (List α)) (o : SuccOpts) (fuel : Nat)
       -- `successor(…)` / `predecessor(…)` (by `o.reverse`)
+  | succOpen (key : α → Int) (input : Option (List α)) (o : SuccOpts)
+      -- `g = successors(input, …)` / `predecessors(…)`: a generator object, advanced by `next`
   | clearCache                                    -- `clear_cache()`
+  | minify (tag : Nat)
+      -- `minify(retain_names)`: on a partial DFA the pre-pass reads `_get_digraph()` (cached);
+      -- the rest (`_minify`, a classmethod) is a function of the definition and that graph
+  | toPartial (tag : Nat)
+      -- `to_partial(retain_names, minify)`: always reads `_get_digraph()` (cached)
   | other (tag : Nat)
       -- any method that neither reads nor writes the caches (`==`, `<=`, `issubset`,
-      -- `isdisjoint`, `minify`, …): its answer is a function of the definition alone
+      -- `isdisjoint`, `complement`, `union`, …): its answer is a function of the definition alone
+
+/-- The values of the queries whose body is not modelled here (they are other properties'
+operations): `other tag` is a function of the definition alone, `viaGraph tag g` of the
+definition and of the graph object `g` the method obtained from `_get_digraph()`. -/
+structure Ext (σ : Type) where
+  other : Nat → Nat
+  viaGraph : Nat → Digraph σ → Nat
 
 inductive Ans (α : Type)
   | unit
@@ -234,7 +257,7 @@ def ansOfRes {β : Type} (f : β → Ans α) : Res β → Ans α
 /-- `words_of_length(i)` opened inside `iter(dfa)`: populate the cache of the moment, look
 up the list; repeated while the list is empty and the loop condition holds. -/
 def cIterAdvance (d : DFA σ α) (key : α → Int) :
-    Nat → Inst σ α → Nat → Option Nat → List (List α) → Inst σ α × Gen α × Ans α
+    Nat → Inst σ α → Nat → Option Nat → List (List α) → Inst σ α × Gen σ α × Ans α
   | _, s, i, limit, w :: rest => (s, .iterRun i limit rest, .word w)
   | 0, s, i, limit, [] => (s, .iterRun i limit [], .outOfFuel)
   | fuel + 1, s, i, limit, [] =>
@@ -244,9 +267,39 @@ def cIterAdvance (d : DFA σ α) (key : α → Int) :
       let wc := d.populateWord key s.words i
       cIterAdvance d key fuel { s with words := wc } (i + 1) limit (cacheWords wc i d.init)
 
+/-- `next(g)` of a started `successors` generator: run the loop until the next `yield` (at most
+`fuel` iterations).  Only the generator's own local variables are read and written. -/
+def succAdvance (d : DFA σ α) (o : SuccOpts) (c : SuccCfg σ α) :
+    Nat → SuccState σ α → Gen σ α × Ans α
+  | 0, st => (.succRun o c st, .outOfFuel)
+  | fuel + 1, st =>
+    match st.chars.isEmpty && st.cand.isNone with
+    | true =>
+      -- the code after the loop: at most one more word, then the generator returns
+      match succFinal d o st with
+      | (w :: _, _) => (.done, .word w)
+      | ([], .raised e) => (.done, .exn e)
+      | ([], _) => (.done, .stop)
+    | false =>
+      match succStep d o c st with
+      | (some w, .ok st') => (.succRun o c st', .word w)
+      | (some w, .error e) => (.raising e, .word w)
+      | (none, .ok st') => succAdvance d o c fuel st'
+      | (none, .error e) => (.done, .exn e)
+
+/-- The cached calls made when a `successors` generator starts. -/
+def cSuccStart (d : DFA σ α) (s : Inst σ α) (reverse : Bool) : Inst σ α × Res Bool × Digraph σ :=
+  match reverse with
+  | true =>
+    let r := d.cIsFinite s
+    match r.2 with
+    | .ok true => let r2 := d.cDigraph r.1; (r2.1, .ok true, r2.2)
+    | other => (r.1, other, d.digraph)        -- raises before `_get_digraph()` is called
+  | false => let r2 := d.cDigraph s; (r2.1, .ok true, r2.2)
+
 /-- `next(g)` for a live generator `g`. -/
 def cGenNext (d : DFA σ α) (key : α → Int) (s : Inst σ α) (fuel : Nat) :
-    Gen α → Inst σ α × Gen α × Ans α
+    Gen σ α → Inst σ α × Gen σ α × Ans α
   | .wordsNew k =>
     let wc := d.populateWord key s.words k
     match cacheWords wc k d.init with
@@ -268,23 +321,20 @@ def cGenNext (d : DFA σ α) (key : α → Int) (s : Inst σ α) (fuel : Nat) :
         | .error e => (r3.1, .done, .exn e)
         | .ok limit => d.cIterAdvance key fuel r3.1 i limit []
   | .iterRun i limit rest => d.cIterAdvance key fuel s i limit rest
+  | .succNew skey input o =>
+    let r := d.cSuccStart s o.reverse
+    match d.succSetup r.2.1 r.2.2 skey input o with
+    | .error e => (r.1, .done, .exn e)
+    | .ok cs => let a := d.succAdvance o cs.1 fuel cs.2; (r.1, a.1, a.2)
+  | .succRun o c st => let a := d.succAdvance o c fuel st; (s, a.1, a.2)
+  | .raising e => (s, .done, .exn e)
   | .done => (s, .done, .stop)
-
-/-- The cached calls made when a `successors` generator starts. -/
-def cSuccStart (d : DFA σ α) (s : Inst σ α) (reverse : Bool) : Inst σ α × Res Bool × Digraph σ :=
-  match reverse with
-  | true =>
-    let r := d.cIsFinite s
-    match r.2 with
-    | .ok true => let r2 := d.cDigraph r.1; (r2.1, .ok true, r2.2)
-    | other => (r.1, other, d.digraph)        -- raises before `_get_digraph()` is called
-  | false => let r2 := d.cDigraph s; (r2.1, .ok true, r2.2)
 
 /-! ### the instance as a state machine -/
 
 /-- One public call on the instance. `key` is the order of the symbols as Python compares
-them (code points); `ext` is the value of the cache-independent queries. -/
-def step (d : DFA σ α) (key : α → Int) (ext : Nat → Nat) (s : Inst σ α) :
+them (code points); `ext` gives the values of the queries whose body is not modelled here. -/
+def step (d : DFA σ α) (key : α → Int) (ext : Ext σ) (s : Inst σ α) :
     Query α → Inst σ α × Ans α
   | .accepts w => (s, .bool (d.accepts w))
   | .count k => let r := d.cCountWords s k; (r.1, .nat r.2)
@@ -315,11 +365,18 @@ def step (d : DFA σ α) (key : α → Int) (ext : Nat → Nat) (s : Inst σ α)
   | .first skey input o fuel =>
     let r := d.cSuccStart s o.reverse
     (r.1, .firstWord (firstOf (d.successorsCore r.2.1 r.2.2 skey input o fuel)))
+  | .succOpen skey input o =>
+    ({ s with gens := s.gens ++ [.succNew skey input o] }, .handle s.gens.length)
   | .clearCache => ({ s with counts := [], words := [] }, .unit)
-  | .other tag => (s, .opaque (ext tag))
+  | .minify tag =>
+    match d.allowPartial with
+    | true => let r := d.cDigraph s; (r.1, .opaque (ext.viaGraph tag r.2))
+    | false => (s, .opaque (ext.other tag))
+  | .toPartial tag => let r := d.cDigraph s; (r.1, .opaque (ext.viaGraph tag r.2))
+  | .other tag => (s, .opaque (ext.other tag))
 
 /-- A history of calls: the answers, in order. -/
-def runHistory (d : DFA σ α) (key : α → Int) (ext : Nat → Nat) :
+def runHistory (d : DFA σ α) (key : α → Int) (ext : Ext σ) :
     Inst σ α → List (Query α) → List (Ans α)
   | _, [] => []
   | s, q :: qs =>
@@ -327,7 +384,7 @@ def runHistory (d : DFA σ α) (key : α → Int) (ext : Nat → Nat) :
     r.2 :: runHistory d key ext r.1 qs
 
 /-- The state after a history. -/
-def afterHistory (d : DFA σ α) (key : α → Int) (ext : Nat → Nat) :
+def afterHistory (d : DFA σ α) (key : α → Int) (ext : Ext σ) :
     Inst σ α → List (Query α) → Inst σ α
   | s, [] => s
   | s, q :: qs => afterHistory d key ext (d.step key ext s q).1 qs
@@ -335,7 +392,7 @@ def afterHistory (d : DFA σ α) (key : α → Int) (ext : Nat → Nat) :
 /-! ### the stateless reference -/
 
 def pIterAdvance (d : DFA σ α) (key : α → Int) :
-    Nat → Nat → Option Nat → List (List α) → Gen α × Ans α
+    Nat → Nat → Option Nat → List (List α) → Gen σ α × Ans α
   | _, i, limit, w :: rest => (.iterRun i limit rest, .word w)
   | 0, i, limit, [] => (.iterRun i limit [], .outOfFuel)
   | fuel + 1, i, limit, [] =>
@@ -344,7 +401,7 @@ def pIterAdvance (d : DFA σ α) (key : α → Int) :
     | true => pIterAdvance d key fuel (i + 1) limit (d.wordsOfLength key i)
 
 /-- `next(g)` computed from the definition alone. -/
-def pGenNext (d : DFA σ α) (key : α → Int) (fuel : Nat) : Gen α → Gen α × Ans α
+def pGenNext (d : DFA σ α) (key : α → Int) (fuel : Nat) : Gen σ α → Gen σ α × Ans α
   | .wordsNew k =>
     match d.wordsOfLength key k with
     | [] => (.done, .stop)
@@ -362,11 +419,17 @@ def pGenNext (d : DFA σ α) (key : α → Int) (fuel : Nat) : Gen α → Gen α
         | .error e => (.done, .exn e)
         | .ok limit => d.pIterAdvance key fuel i limit []
   | .iterRun i limit rest => d.pIterAdvance key fuel i limit rest
+  | .succNew skey input o =>
+    match d.succSetup (d.finiteGuard o.reverse) d.digraph skey input o with
+    | .error e => (.done, .exn e)
+    | .ok cs => d.succAdvance o cs.1 fuel cs.2
+  | .succRun o c st => d.succAdvance o c fuel st
+  | .raising e => (.done, .exn e)
   | .done => (.done, .stop)
 
 /-- The answer of every query, and the generators' positions, computed without any cache. -/
-def stepPure (d : DFA σ α) (key : α → Int) (ext : Nat → Nat) (gens : List (Gen α)) :
-    Query α → List (Gen α) × Ans α
+def stepPure (d : DFA σ α) (key : α → Int) (ext : Ext σ) (gens : List (Gen σ α)) :
+    Query α → List (Gen σ α) × Ans α
   | .accepts w => (gens, .bool (d.accepts w))
   | .count k => (gens, .nat (d.countWordsOfLength k))
   | .wordsOpen k => (gens ++ [.wordsNew k], .handle gens.length)
@@ -389,11 +452,17 @@ def stepPure (d : DFA σ α) (key : α → Int) (ext : Nat → Nat) (gens : List
       let out := takeYields (n + 1) (d.successors skey input o fuel)
       (gens, .words out.1 out.2)
   | .first skey input o fuel => (gens, .firstWord (firstOf (d.successors skey input o fuel)))
+  | .succOpen skey input o => (gens ++ [.succNew skey input o], .handle gens.length)
   | .clearCache => (gens, .unit)
-  | .other tag => (gens, .opaque (ext tag))
+  | .minify tag =>
+    match d.allowPartial with
+    | true => (gens, .opaque (ext.viaGraph tag d.digraph))
+    | false => (gens, .opaque (ext.other tag))
+  | .toPartial tag => (gens, .opaque (ext.viaGraph tag d.digraph))
+  | .other tag => (gens, .opaque (ext.other tag))
 
-def runPure (d : DFA σ α) (key : α → Int) (ext : Nat → Nat) :
-    List (Gen α) → List (Query α) → List (Ans α)
+def runPure (d : DFA σ α) (key : α → Int) (ext : Ext σ) :
+    List (Gen σ α) → List (Query α) → List (Ans α)
   | _, [] => []
   | gens, q :: qs =>
     let r := d.stepPure key ext gens q
